@@ -4,6 +4,7 @@ import (
 	"fmt"
 	"sort"
 	"strings"
+	"sync/atomic"
 	"time"
 
 	"github.com/gofrs/uuid"
@@ -248,7 +249,7 @@ func (w *World) pending(s *Snap) []string {
 	}
 	// O8: the first change wakes the persist loop; its save is captured by the harness store before
 	// the history goes on (afterwards no automatic save can happen in this case)
-	if w.Mem != nil && len(w.Order) > 0 && !w.Mem.Captured() {
+	if w.Mem != nil && len(w.Order) > 0 && !w.Mem.Captured() && atomic.LoadInt32(&w.Mem.Explicit) == 0 {
 		p = append(p, "first automatic save not yet captured")
 	}
 	return p
